@@ -162,6 +162,10 @@ class SymObj:
         return None, None
 
 
+class PyStub:
+    """base class for analyser-side models of repository objects: attribute access and indexing are delegated to Python"""
+
+
 class _ClassRef:
     def __init__(self, name):
         self.name = name
@@ -602,6 +606,10 @@ class SymEval:
         return self.getattr(base, n.attr, n, p)
 
     def getattr(self, base, attr, n, p):
+        if isinstance(base, PyStub):
+            if not hasattr(base, attr):
+                raise Opaque('model object %s has no attribute %s' % (type(base).__name__, attr))
+            return getattr(base, attr)
         if isinstance(base, SymObj):
             for key in (attr, '_%s%s' % (base.cls.name, attr) if (base.cls is not None and attr.startswith('__')) else attr):
                 if key in base.attrs:
@@ -621,6 +629,8 @@ class SymEval:
                 return base.ndim
             if attr == 'size':
                 return base.size
+            if attr == 'dtype':
+                return None
             if attr == 'real':
                 return vmap(sp.re, base)
             if attr == 'imag':
@@ -643,6 +653,8 @@ class SymEval:
                 return ()
             if attr == 'ndim':
                 return 0
+            if attr == 'dtype':
+                return None
         if isinstance(base, dict):
             if attr == 'pop':
                 return lambda k, *d: base.pop(k, *d)
@@ -660,6 +672,8 @@ class SymEval:
         base = self.ev(n.value, p)
         idx = self.index(n.slice, p)
         try:
+            if isinstance(base, PyStub):
+                return base[idx]
             if isinstance(base, dict):
                 if idx not in base:
                     raise WouldRaise('KeyError: %s in %s' % (idx, norm(n)))
@@ -856,7 +870,7 @@ class SymEval:
         elif isinstance(t, ast.Subscript):
             base = self.ev(t.value, p)
             idx = self.index(t.slice, p)
-            if isinstance(base, dict):
+            if isinstance(base, (dict, PyStub)):
                 base[idx] = v
             elif is_arr(base) or isinstance(base, list):
                 base[idx] = v
